@@ -4,6 +4,8 @@ the programs the specification accepts, with the same bytes.
 -/
 import EtkVerif.Asm.Spec
 import EtkVerif.Asm.LayoutLemmas
+import EtkVerif.Asm.RefineSteps
+import EtkVerif.Asm.RefinePanic
 namespace EtkVerif
 namespace Asm
 
@@ -12,14 +14,24 @@ implementation model (feeding items one at a time with provisional positions,
 an undeclared-label set, feed-time and emission-time checks) returns bytes iff
 the specification does, and they are the same bytes (and the same final counter). -/
 theorem assemble_refines (rnd : Nat → Nat) (fuel : Nat) (k : Nat) (ops : RawOps) (r : List Nat × Nat) :
-    assemble rnd fuel { fresh := k } ops = .ok r ↔ Spec.assembleScope rnd fuel k ops = .ok r := by
-  sorry
+    assemble rnd fuel { fresh := k } ops = .ok r ↔ Spec.assembleScope rnd fuel k ops = .ok r :=
+  (all_steps rnd fuel).2.2.2.2 k ops r
+
+/-- forward direction: what the model assembles, the specification assembles to the same bytes -/
+theorem assemble_refines_fwd (rnd : Nat → Nat) (fuel : Nat) (k : Nat) (ops : RawOps) (r : List Nat × Nat)
+    (h : assemble rnd fuel { fresh := k } ops = .ok r) : Spec.assembleScope rnd fuel k ops = .ok r :=
+  (assemble_refines rnd fuel k ops r).1 h
+
+/-- backward direction: the model accepts every program the specification accepts -/
+theorem assemble_refines_bwd (rnd : Nat → Nat) (fuel : Nat) (k : Nat) (ops : RawOps) (r : List Nat × Nat)
+    (h : Spec.assembleScope rnd fuel k ops = .ok r) : assemble rnd fuel { fresh := k } ops = .ok r :=
+  (assemble_refines rnd fuel k ops r).2 h
 
 /-- The model never reports one of its internal `panic` outcomes other than fuel
 exhaustion: every `unwrap` / `expect` / `assert` of `asm.rs` modelled as a panic is unreachable. -/
 theorem assemble_no_panic (rnd : Nat → Nat) (fuel : Nat) (k : Nat) (ops : RawOps) (site : String)
-    (h : assemble rnd fuel { fresh := k } ops = .error (.panic site)) : site = "fuel" := by
-  sorry
+    (h : assemble rnd fuel { fresh := k } ops = .error (.panic site)) : site = "fuel" :=
+  (panicFree rnd fuel).2.2.2.2 _ ops _ h site rfl
 
 end Asm
 end EtkVerif
